@@ -330,6 +330,31 @@ def phonon_volume_order(chk, tier, rng):
     handover = {}
     stored = {}
     raised = {}
+    # the spectrum handed on is the file's: within every (volume, q-point) block the modes keep the order they are listed in (the columns
+    # are branches followed through the volumes); a loader that compares frequencies is explored on every outcome of its comparisons
+    try:
+        paths0 = X.explore(lambda: load(perms[0]), name="C13:_load(modes)", max_paths=24)
+        want_modes = {float(v.volume): tuple(tuple(Sym.of(x).key() for x in q.modes) for q in v.q_points) for v in blocks(perms[0]).volumes}
+        moved = None
+        for p in paths0:
+            if p.exception is not None:
+                continue
+            for which in ("adapter", "stored"):
+                for v in p.result[which].volumes:
+                    got = tuple(tuple(Sym.of(x).key() for x in q.modes) for q in v.q_points)
+                    if got != want_modes[float(v.volume)]:
+                        moved = moved or (which, float(v.volume))
+        chk.obligation("Calculator._load hands every (volume, q-point) block on with its modes in the listed order [%d paths]" % len(paths0),
+                       "unsat" if moved is None else "sat", kind="wiring", detail=moved)
+        if moved is not None:
+            replay_mode_order(chk, "modes of the block at V = %s re-ordered (%s)" % (moved[1], moved[0]))
+            return
+    except SymError as e:
+        n0 = len(chk.violations) + len(chk.known_hits)
+        replay_mode_order(chk, "symbolic run stopped: %s" % e)
+        if len(chk.violations) + len(chk.known_hits) == n0:
+            chk.inconclusive("mode order at the hand-over", str(e))
+        return
     for perm in perms:
         try:
             rec = X.run_single_path(lambda: load(perm), name="C13:_load")
@@ -589,6 +614,53 @@ def replay_static_rows(chk, perm, what):
     finally:
         logging.disable(logging.NOTSET)
     chk.harness_error("C13 static rows: '%s' did not reproduce on the real calculator" % what)
+
+
+def replay_mode_order(chk, what):
+    """Real readers + real Calculator._load (QHA adapter not built) on the akimotoite phonon file in which two branches of one q-point cross
+    (listed by branch, not by frequency): the loaded spectrum must be the file's, block by block."""
+    import shutil
+    import tempfile
+    import cij.core.calculator as cc
+    import cij.io.traditional.qha_input as qi
+    src = os.path.join(os.environ.get("CIJ_REPO", "/repo"), "examples", "akimotoite")
+    d = tempfile.mkdtemp(prefix="c13mo_")
+    try:
+        data = qi.read_energy(os.path.join(src, "input01"))
+        vols = []
+        for iv, v in enumerate(data.volumes):
+            qps = list(v.q_points)
+            if iv < len(data.volumes) // 2:
+                m = list(qps[1].modes)
+                m[3], m[4] = m[4], m[3]          # the two branches cross between the first and the second half of the volumes
+                qps[1] = qps[1]._replace(modes=m)
+            vols.append(v._replace(q_points=qps))
+        qi.write_energy(os.path.join(d, "input01"), data._replace(volumes=vols))
+        shutil.copy(os.path.join(src, "input02"), d)
+        shutil.copy(os.path.join(src, "settings.yaml"), d)
+        listed = {round(v.volume, 6): [list(q.modes) for q in v.q_points] for v in qi.read_energy(os.path.join(d, "input01")).volumes}
+        calc = object.__new__(cc.Calculator)
+        import logging
+        logging.disable(logging.CRITICAL)
+        try:
+            with patched((cc, {"QHACalculatorAdapter": lambda settings, qha_input: None})):
+                calc._load(os.path.join(d, "settings.yaml"))
+        finally:
+            logging.disable(logging.NOTSET)
+        for v in calc.qha_input.volumes:
+            got = [list(q.modes) for q in v.q_points]
+            if got != listed[round(v.volume, 6)]:
+                j = next(i for i in range(len(got)) if got[i] != listed[round(v.volume, 6)][i])
+                chk.violation("phonon:mode-order", "Calculator._load re-orders the modes inside a (volume, q-point) block: file lists %s ... for V = %.4f, q-point %d, "
+                              "the calculation works with %s ... (branches that cross are no longer followed through the volumes)" % (
+                                  [round(x, 3) for x in listed[round(v.volume, 6)][j][2:6]], v.volume, j + 1, [round(x, 3) for x in got[j][2:6]]), {})
+                return
+    except Exception as e:
+        chk.harness_error("C13 mode order replay failed: %s: %s" % (type(e).__name__, e))
+        return
+    finally:
+        shutil.rmtree(d, ignore_errors=True)
+    chk.harness_error("C13 mode order: '%s' did not reproduce on the real loader" % what)
 
 
 def replay_volume_order(chk, perm, what, method="lsq_poly", order=3):
